@@ -27,15 +27,19 @@ def gen_n(rng, max_n=40):
     return n
 
 
+T_MAX = 9_000_000_000  # stay well inside what datetime64[ns] can represent (it ends in April 2262)
+
+
 def gen_times(rng, n):
     t0 = rng.pick(T_BASES) + rng.pick((0, 0, 3600 * 5, 86400 * 11 + 17))
+    steps = [x for x in STEPS if t0 + 3 * x * (n + 1) < T_MAX] or [1]
     if rng.chance(0.6):
-        step = rng.pick(STEPS)
+        step = rng.pick(steps)
         return [t0 + i * step for i in range(n)]
     out, t = [], t0
     for _ in range(n):
         out.append(t)
-        t += rng.pick(STEPS) * rng.randint(1, 3)
+        t += rng.pick(steps) * rng.randint(1, 3)
     return out
 
 
